@@ -9,7 +9,6 @@ import (
 
 	sdk "github.com/cosmos/cosmos-sdk/types"
 
-	connectiontypes "github.com/cosmos/ibc-go/v11/modules/core/03-connection/types"
 	channeltypes "github.com/cosmos/ibc-go/v11/modules/core/04-channel/types"
 	host "github.com/cosmos/ibc-go/v11/modules/core/24-host"
 	ibctesting "github.com/cosmos/ibc-go/v11/testing"
@@ -533,7 +532,6 @@ func (x *c12World) check(t rapid.TB, rec *vx.Case, i int, op c12Op, st c12Step) 
 		x.cur[c] = now
 		x.hist[c].record(w.Height(c), now)
 	}
-	// a successful close-confirm must have closed something (otherwise the check above is blind)
 	// ---- agreement whenever both ends are OPEN
 	for c := 0; c < 2; c++ {
 		o := 1 - c
@@ -684,5 +682,3 @@ func TestC12(t *testing.T) {
 		Run: runC12(t),
 	})
 }
-
-var _ = connectiontypes.OPEN
